@@ -6,6 +6,8 @@ slicing and whole-stream rules, deliberately not shaped like auditok's
 Parameter tuples are (mn, mx, ms, im, is_, mode).
 """
 
+import operator
+
 MODES = (0, 2, 4, 6)
 
 
@@ -167,7 +169,9 @@ def check_c01(frames, toks):
     n = len(frames)
     prev_e = -1
     for data, s, e in toks:
-        if not (isinstance(s, int) and isinstance(e, int)):
+        try:
+            s, e = operator.index(s), operator.index(e)  # any integral type; compared by value
+        except TypeError:
             return "non-integer indices %r %r" % (s, e)
         if not (0 <= s <= e < n):
             return "indices out of range: (%d,%d) for %d frames" % (s, e, n)
